@@ -181,8 +181,146 @@ func funcValue(v ssa.Value) *ssa.Function {
 		return funcValue(x.X)
 	case *ssa.MakeInterface:
 		return funcValue(x.X)
+	case *ssa.Call:
+		// a factory that builds the function: every one of its returns hands back a closure of the same body
+		cf := x.Call.StaticCallee()
+		if cf == nil || cf.Blocks == nil || !firstParty(cf) {
+			return nil
+		}
+		var res *ssa.Function
+		for _, b := range cf.Blocks {
+			for _, in := range b.Instrs {
+				ret, ok := in.(*ssa.Return)
+				if !ok || len(ret.Results) != 1 {
+					continue
+				}
+				f := funcValueNoCall(ret.Results[0])
+				if f == nil || (res != nil && res != f) {
+					return nil
+				}
+				res = f
+			}
+		}
+		return res
 	}
 	return nil
+}
+
+func funcValueNoCall(v ssa.Value) *ssa.Function {
+	if _, isCall := v.(*ssa.Call); isCall {
+		return nil
+	}
+	return funcValue(v)
+}
+
+// globalSliceInit: the elements a package-level slice of structs is initialised with (a composite literal in its
+// declaration): per element, the value stored into each field. ok is false when that cannot be read off the init code.
+func globalSliceInit(g *ssa.Global) ([]map[int]ssa.Value, bool) {
+	if g == nil || g.Pkg == nil {
+		return nil, false
+	}
+	initFn := g.Pkg.Func("init")
+	if initFn == nil {
+		return nil, false
+	}
+	var backing *ssa.Alloc
+	for _, b := range initFn.Blocks {
+		for _, in := range b.Instrs {
+			if st, ok := in.(*ssa.Store); ok && st.Addr == ssa.Value(g) {
+				if sl, ok := st.Val.(*ssa.Slice); ok {
+					backing, _ = sl.X.(*ssa.Alloc)
+				}
+			}
+		}
+	}
+	if backing == nil || backing.Referrers() == nil {
+		return nil, false
+	}
+	byIdx := map[int64]map[int]ssa.Value{}
+	max := int64(-1)
+	for _, r := range *backing.Referrers() {
+		ia, ok := r.(*ssa.IndexAddr)
+		if !ok {
+			continue
+		}
+		i, ok := constInt(ia.Index)
+		if !ok || ia.Referrers() == nil {
+			return nil, false
+		}
+		if i > max {
+			max = i
+		}
+		for _, rr := range *ia.Referrers() {
+			fa, ok := rr.(*ssa.FieldAddr)
+			if !ok || fa.Referrers() == nil {
+				continue
+			}
+			for _, r3 := range *fa.Referrers() {
+				if st, ok := r3.(*ssa.Store); ok && st.Addr == ssa.Value(fa) {
+					if byIdx[i] == nil {
+						byIdx[i] = map[int]ssa.Value{}
+					}
+					byIdx[i][fa.Field] = st.Val
+				}
+			}
+		}
+	}
+	var out []map[int]ssa.Value
+	for i := int64(0); i <= max; i++ {
+		out = append(out, byIdx[i])
+	}
+	return out, len(out) > 0
+}
+
+// tableField: v reads field k of an element of a package-level slice (for _, e := range table { use(e.k) }).
+func tableField(v ssa.Value) (*ssa.Global, int, bool) {
+	v = stripConv(v)
+	var elem ssa.Value
+	field := -1
+	switch x := v.(type) {
+	case *ssa.Field:
+		elem, field = x.X, x.Field
+	case *ssa.UnOp:
+		if fa, ok := x.X.(*ssa.FieldAddr); ok {
+			elem, field = fa.X, fa.Field
+		}
+	}
+	if elem == nil {
+		return nil, 0, false
+	}
+	// the loop variable copy: c := table[i] kept in a local cell
+	if al, ok := elem.(*ssa.Alloc); ok {
+		if sv := singleStore(al); sv != nil {
+			elem = sv
+		} else if al.Referrers() != nil {
+			var vals []ssa.Value
+			for _, r := range *al.Referrers() {
+				if st, ok := r.(*ssa.Store); ok && st.Addr == ssa.Value(al) {
+					vals = append(vals, st.Val)
+				}
+			}
+			if len(vals) == 1 {
+				elem = vals[0]
+			}
+		}
+	}
+	// elem: *(&table[i])  or  &table[i]
+	if u, ok := elem.(*ssa.UnOp); ok {
+		elem = u.X
+	}
+	ia, ok := elem.(*ssa.IndexAddr)
+	if !ok {
+		return nil, 0, false
+	}
+	u, ok := ia.X.(*ssa.UnOp)
+	if !ok {
+		return nil, 0, false
+	}
+	g, ok := u.X.(*ssa.Global)
+	if !ok {
+		return nil, 0, false
+	}
+	return g, field, true
 }
 
 func firstParty(f *ssa.Function) bool {
@@ -364,6 +502,28 @@ func BuildFacts(c *C) *Facts {
 				}
 				name, ok1 := constString(call.Call.Args[0])
 				ex := funcValue(call.Call.Args[1])
+				// registration driven by a package-level table: for _, c := range table { RegisterCommand(c.name, c.executor) }
+				if g1, nf, okN := tableField(call.Call.Args[0]); okN {
+					if g2, ef, okE := tableField(call.Call.Args[1]); okE && g1 == g2 {
+						if elems, ok := globalSliceInit(g1); ok {
+							all := true
+							for _, e := range elems {
+								en, okn := constString(e[nf])
+								ee := funcValue(e[ef])
+								if !okn || ee == nil {
+									all = false
+									continue
+								}
+								f.Executors[en] = ee
+								f.ExecNames[ee] = append(f.ExecNames[ee], en)
+								f.RegSites[en] = call.Pos()
+							}
+							if all {
+								continue
+							}
+						}
+					}
+				}
 				if !ok1 || ex == nil {
 					c.Add("FACT", fnName(fn), "RegisterCommand with non-constant name or non-function executor", call.Pos(), false, "executor table cannot be reconstructed")
 					continue
